@@ -515,7 +515,7 @@ type rspIndex struct {
 func GetItemsByIDs[T any](ids []string, getItem GetItemFunc[*T], balances CommonStateContextI) ([]*T, error) {
 	var (
 		itemC     = make(chan rspIndex, len(ids))
-		stateErrC = make(chan error, len(ids))
+		stateErrC = make(chan errorIndex, len(ids))
 		errC      = make(chan errorIndex, len(ids))
 		wg        sync.WaitGroup
 	)
@@ -527,7 +527,10 @@ func GetItemsByIDs[T any](ids []string, getItem GetItemFunc[*T], balances Common
 			item, err := getItem(id, balances)
 			if err != nil {
 				if err != util.ErrValueNotPresent {
-					stateErrC <- err
+					stateErrC <- errorIndex{
+						err:   err,
+						index: idx,
+					}
 					return
 				}
 
@@ -556,11 +559,18 @@ func GetItemsByIDs[T any](ids []string, getItem GetItemFunc[*T], balances Common
 	close(itemC)
 	close(errC)
 
-	// check internal error first
-	select {
-	case err := <-stateErrC:
-		return nil, err
-	default:
+	// check internal error first; when several items failed, report the one with the lowest index
+	// so that the error (it becomes the transaction output) does not depend on goroutine order
+	close(stateErrC)
+	var stateErr *errorIndex
+	for ei := range stateErrC {
+		ei := ei
+		if stateErr == nil || ei.index < stateErr.index {
+			stateErr = &ei
+		}
+	}
+	if stateErr != nil {
+		return nil, stateErr.err
 	}
 
 	errIdxs := make([]errorIndex, 0, len(ids))
